@@ -44,10 +44,15 @@ func c17Cases(tier string, seed int64) []fw.Case {
 			"type": storeTypes[i%3], "g": 2 + rng.Intn(7), "w": 3 + rng.Intn(18), "handler": hs[(i/3)%5], "preload": []int{0, 0, 120}[i%3],
 		}})
 	}
+	// recorded call/return histories of concurrent readers and writers, checked for linearizability (c17lin.go)
+	out = append(out, c17LinCases(tier, seed, len(out))...)
 	return out
 }
 
 func c17Run(c fw.Case) fw.Verdict {
+	if c.Str("mode", "") == "lin" {
+		return c17LinRun(c)
+	}
 	e := NewEnv()
 	defer e.Close()
 	v := fw.Verdict{}
